@@ -108,12 +108,12 @@ RM2_SCENARIOS = {   # Remove2.tla scenario -> remove_all path on CONC_TREES["rm2
 REAL_STEPS_RM = {"unlink": 1, "rmdir": 1, "opendir": 1, "scan": 3, "iter": 0}
 
 
-def tlc_remove2(scn, ignore=True, nofollow=True, attack=0, dump=False, anyorder=False):
+def tlc_remove2(scn, ignore=True, nofollow=True, attack=0, dump=False, anyorder=False, enotdir=False, invs="TypeOK AllSucceed Gone OnlySubtreeGone WholeSubtreeGone OutsideUntouched OkMeansGone"):
     import re
-    cfg = os.path.join(workdir(), "rm2-%s-%s-%s-%d-%s.cfg" % (scn, ignore, nofollow, attack, anyorder))
+    cfg = os.path.join(workdir(), "rm2-%s-%s-%s-%d-%s-%s.cfg" % (scn, ignore, nofollow, attack, anyorder, enotdir))
     with open(cfg, "w") as f:
-        f.write("SPECIFICATION Spec\nCONSTANTS\n  Procs = {\"p1\", \"p2\"}\n  Scenario <- %s\n  MaxIno = 15\n  IgnoreENOENT = %s\n  NoFollowOnOpen = %s\n  MaxAttack = %d\n  AnyOrder = %s\n"
-                "INVARIANTS TypeOK AllSucceed Gone OnlySubtreeGone WholeSubtreeGone OutsideUntouched\nCHECK_DEADLOCK FALSE\n" % (scn, "TRUE" if ignore else "FALSE", "TRUE" if nofollow else "FALSE", attack, "TRUE" if anyorder else "FALSE"))
+        f.write("SPECIFICATION Spec\nCONSTANTS\n  Procs = {\"p1\", \"p2\"}\n  Scenario <- %s\n  MaxIno = 15\n  IgnoreENOENT = %s\n  NoFollowOnOpen = %s\n  MaxAttack = %d\n  AnyOrder = %s\n  IgnoreENOTDIROnOpen = %s\n"
+                "INVARIANTS %s\nCHECK_DEADLOCK FALSE\n" % (scn, "TRUE" if ignore else "FALSE", "TRUE" if nofollow else "FALSE", attack, "TRUE" if anyorder else "FALSE", "TRUE" if enotdir else "FALSE", invs))
     dfile = os.path.join(workdir(), "rm2-%s" % scn)
     r = run_tlc("MC_Remove2.tla", cfg, workers=1 if dump else 8, timeout=900, extra=["-dump", "dot,actionlabels", dfile] if dump else None)
     scheds = []
@@ -288,8 +288,48 @@ def conc_cases(prop, rnd, quick):
                 cases.append(dict(id="tlcsched|%s|%d" % (scn, si), tree=tree, feat={"openat2": True}, trace=True, raw=False, procs=2, calls=cs,
                                   order=order + [0] * 600, post=True, expectall=True,
                                   meta=dict(kind="concurrent-tlc", tree="rm2", calls=calls, backend="kernel", scenario=scn, order_prefix=order)))
+        # the permission dimension of the model: the caller may not remove some entries (EACCES / EPERM from may_delete())
+        for scn in ("RD", "RE", "RF", "RG", "RH"):
+            rp, _ = tlc_remove2(scn, anyorder=True, invs="TypeOK OkMeansGone DeniedMeansError OnlySubtreeGone OutsideUntouched")
+            vp, _ = tlc_remove2(scn, anyorder=True, enotdir=True, invs="TypeOK OkMeansGone")
+            tlc_info["perm-" + scn] = dict(states=rp["distinct"], complete=rp["complete"], violated=rp["violated"], variant_enotdir_on_open_means_gone=vp["violated"])
     conc_cases.tlc_info = tlc_info
     return cases, space
+
+
+U = 65534
+def _own(n, uid=None, mode=None):
+    n = dict(n)
+    if uid is not None:
+        n["uid"] = uid
+    if mode is not None:
+        n["mode"] = mode
+    return n
+
+
+PERM_TREES = {
+    # the caller (uid 65534) owns the root, a/ and e/sub/ but not e/: entries of e cannot be removed
+    "perm1": [dict(id=90, p=2, n="", k="rootattr", uid=U), _own(N(5, R, "a", "dir"), U), _own(N(6, 5, "b", "dir"), U), _own(N(7, 6, "f", "file"), U), _own(N(8, 5, "l_out", "lnk", "../../out"), U),
+              N(12, R, "e", "dir"), N(13, 12, "keep", "file"), _own(N(14, 12, "sub", "dir"), U), _own(N(15, 14, "x", "file"), U), N(16, 12, "lnk", "lnk", "../a"), N(17, 12, "fifo", "fifo")],
+    # the root is not the caller's: a/ can be emptied but not removed
+    "perm2": [_own(N(5, R, "a", "dir"), U), _own(N(6, 5, "b", "dir"), U), _own(N(7, 6, "f", "file"), U), N(12, R, "e", "dir"), N(13, 12, "keep", "file")],
+    # a sticky world-writable directory of somebody else with a foreign file and the caller's own subdirectory
+    "perm3": [dict(id=90, p=2, n="", k="rootattr", uid=U), _own(N(5, R, "a", "dir"), U), _own(N(6, 5, "b", "dir"), 0, 0o1777), N(9, 6, "f2", "file"), _own(N(7, 6, "c", "dir"), U), _own(N(8, 7, "f1", "file"), U),
+              N(10, 6, "l2", "lnk", "../../e"), N(12, R, "e", "dir"), N(13, 12, "keep", "file")],
+}
+PERM_PATHS = {"perm1": ["e/keep", "e/lnk", "e/fifo", "e", "e/sub", "a", "e/sub/x", "e/lnk/b"], "perm2": ["a", "a/b", "e/keep"], "perm3": ["a/b", "a/b/f2", "a/b/c", "a/b/l2", "a"]}
+
+
+def perm_cases():
+    out = []
+    for tname, tree in PERM_TREES.items():
+        for path in PERM_PATHS[tname]:
+            for bname, feat in rootops_static.FEATS:
+                for api in ("rust", "c"):
+                    call = dict(op="remove_all", path=path, api=api, euid=U)
+                    out.append(dict(id="perm|%s|%s|%s|%s" % (tname, path, bname, api), tree=tree, feat=feat, trace=True, raw=False, calls=[call], post=True,
+                                    meta=dict(kind="static-perm", tree=tname, call=call, backend=bname)))
+    return out
 
 
 def run(prop, tier_):
@@ -327,6 +367,9 @@ def run(prop, tier_):
                     call = dict(op="remove_all", path=path, api=api)
                     scases.append(dict(id="big|%s|%s|%s|%s" % (tname, path, bname, api), tree=tree, feat=feat, trace=True, raw=False, calls=[call], post=True,
                                        meta=dict(kind="static-big", tree=tname, call=call, backend=bname, expect=dict(ok=True), model_post=True)))
+    if prop == "C13":
+        # a caller without the permission to remove (part of) the subtree: success still means "gone"
+        scases += perm_cases()
     acases = []
     if prop == "C13":
         # "never follows links" under an attacker: every placement of the priority attacker actions
